@@ -795,6 +795,12 @@ MONITOR = {"calls": 0, "checked": 0, "errors": 0, "installed": False, "busy": Fa
 _DEPS_H = {}
 
 
+def unit_eq(a, b):
+  """Structural equality (TypeDeclUnit itself compares by identity)."""
+  return (a.constants == b.constants and a.type_params == b.type_params and
+          a.classes == b.classes and a.functions == b.functions and a.aliases == b.aliases)
+
+
 def hierarchy_for(unit, deps):
   key = id(deps)
   ent = _DEPS_H.get(key)
@@ -845,11 +851,12 @@ def install_monitor():
         rec.update(sites=cmp.sites, values=cmp.values, changed_sites=cmp.changed_sites,
                    problems=cmp.problems)
         again = real(result, deps, *args, **kwargs)
-        same = again == result
+        same = unit_eq(again, result)
         if same:
           same = pytd_utils.Print(again) == pytd_utils.Print(result)
         rec["idempotent"] = bool(same)
         if not same or cmp.problems:
+          rec["_node"], rec["_deps"] = node, deps     # for off-line classification
           rec["before_text"] = pytd_utils.Print(node)
           rec["after_text"] = pytd_utils.Print(result)
           if not same:
